@@ -161,6 +161,13 @@ theorem C05_ints_slice (ext : Ext) (text obj field tstr elemT : Bytes) (isNil : 
       PGV.Proofs.Accepts.Verdict (run ext text obj field (.slice tstr elemT isNil es)) (ts.all Spec.Lang.int) :=
   ⟨_, rfl, PGV.Proofs.Accepts.ints_verdict_slice ext obj field text tstr elemT isNil es ts h⟩
 
+-- slices whose elements all have a rendering: `[]float64{0.1, 0.1}` (duplicate), `[]int{1, -2}` (not all digits)
+example :
+    let dup : GoVals := .cons (.float 64 (.fin 3602879701896397 (-55)) (b! "0.1") (b! "0.1")) (.cons (.float 64 (.fin 3602879701896397 (-55)) (b! "0.1") (b! "0.1")) .nil)
+    let mixed : GoVals := .cons (.int 0 1) (.cons (.int 0 (-2)) .nil)
+    dup.toList.mapM GoVal.toStr = some [b! "0.1", b! "0.1"] ∧ distinct [b! "0.1", b! "0.1"] = false
+      ∧ mixed.toList.mapM GoVal.toStr = some [b! "1", b! "-2"] ∧ [b! "1", b! "-2"].all Spec.Lang.int = false := by decide
+
 -- the hypothesis is satisfiable, with quoted options and a custom separator
 example : accepts (mkText (b! "in") (b! "(a/'b/c'/d)") (b! "one of them")) (b! "b/c") = some true
     ∧ accepts (mkText (b! "in") (b! "(a/'b/c'/d)") []) (b! "b") = some false
